@@ -856,7 +856,7 @@ def build_near_valid(draw):
                 wb["entities_header"][0].setdefault(k, None)
         for sh in ("survey", "choices", "settings", "entities"):
             if sh in wb:
-                wb[sh] = [{k: v for k, v in r_.items() if v != ""} for r_ in wb[sh]]
+                wb[sh] = [{k: v for k, v in r_.items() if str(v).strip() != ""} for r_ in wb[sh]]
     args = {k: v for k, v in form.get("args", {}).items() if k in ("form_name", "default_language")}
     return {"wb": wb, "args": args, "near_valid": True}
 
@@ -964,7 +964,7 @@ def build_soup(draw):
                 row[c] = g.pick(["yes", "no", "x"])
             else:
                 row[c] = g.pick(S_TEXT + S_REFS[:6])
-        row = {k: v for k, v in row.items() if v != ""} if P(0.9) else row
+        row = {k: v for k, v in row.items() if str(v).strip() != ""}  # no back end can deliver an empty or blank cell
         survey.append(row)
         if structured and open_stack and P(0.3):
             survey.append({"type": "end " + open_stack.pop()})
@@ -994,7 +994,7 @@ def build_soup(draw):
                             row[c] = g.pick(["a", "b", "c", "a b", "1", "other", "-", "é"]) if P(0.6) else f"c{j}"
                     elif P(0.7):
                         row[c] = g.pick(S_TEXT + S_REFS[:4])
-                ch.append(row)
+                ch.append({k: v for k, v in row.items() if str(v).strip() != ""})
             if P(0.1):
                 ch.append({})
         wb["choices"] = ch
@@ -1005,7 +1005,7 @@ def build_soup(draw):
         for _ in range(g.integer(1, 5)):
             k = g.pick(sorted(S_SETTINGS))
             st_[k] = g.pick(S_SETTINGS[k])
-        st_ = {k: v for k, v in st_.items() if v != ""}
+        st_ = {k: v for k, v in st_.items() if str(v).strip() != ""}
         if st_:
             wb["settings"] = [st_]
             wb["settings_header"] = [{k: None for k in st_}]
@@ -1021,7 +1021,7 @@ def build_soup(draw):
                 row["label"] = g.pick(S_TEXT)
             if P(0.4):
                 row["state"] = g.pick(["a", "b"])
-            ext.append(row)
+            ext.append({k: v for k, v in row.items() if str(v).strip() != ""})
         wb["external_choices"] = ext
         if P(0.85) and ext:
             wb["external_choices_header"] = [{k: None for r_ in ext for k in r_}]
@@ -1031,7 +1031,7 @@ def build_soup(draw):
                         ("create_if", S_EXPR), ("update_if", S_EXPR), ("repeat", ["${r1}", "x"]), ("what", ["x"])):
             if P(0.4):
                 e[k] = g.pick(vals)
-        e = {k: v for k, v in e.items() if v != ""}
+        e = {k: v for k, v in e.items() if str(v).strip() != ""}
         ents = [e] * (2 if P(0.1) else 1)
         if e:
             wb["entities"] = ents
